@@ -95,3 +95,16 @@ def compare(ev, pattern, L, mn_full=None, op_full=None, modes=("bool", "list"), 
 
 def stream_sample(L):
     return "".join(stream_record(a, m, o) for a, m, o in norm_view(L))
+
+
+def run_all_modes(doc, text, macros_files=None, combos=None):
+    """{(mode, search, only_addr): outcome} for the requested combinations (default: all 8)."""
+    out = {}
+    if combos is None:
+        combos = [(m, s, a) for m in ("bool", "list") for s in ("first", "all") for a in (False, True)]
+    sc = jasm_io.scratch()
+    rp = sc.write("rule.yaml", jasm_io.rule_text(doc))
+    lp = sc.write("listing.s", text)
+    for m, s, a in combos:
+        out[(m, s, a)] = jasm_io.match_files(rp, lp, mode=m, search=s, only_addr=a, macros=macros_files)
+    return out
